@@ -1,6 +1,6 @@
 """C07 - geometric quantities match their textbook definitions, are invariant / covariant under rigid motion,
 renumbering and uniform scaling; identities (angle sum, Gauss-Bonnet, constants through interpolation)."""
-import math, os, random
+import copy, gc, math, os, pickle, random
 import numpy as np
 from hypothesis import strategies as st
 from vlib.runner import SubCheck
@@ -127,7 +127,7 @@ IDX_FORMS = ["list", "list", "tuple", "int64", "int32", "int16", "uint8", "uint3
 def idx_form_of(seed, nV):
     """container of every face / cell row: python list, tuple, or a numpy row of a drawn integer dtype (narrow ones when ids fit)"""
     f = IDX_FORMS[(seed // 3) % len(IDX_FORMS)]
-    if f == "uint8" and nV > 255:
+    if f == "uint8" and nV > 256:        # ids 0..255 fit
         f = "int32"
     return f
 
@@ -176,6 +176,43 @@ def circumcenter_in_reach(ctx, V, tris, where):
         return True
     ctx.discard("face_circumcenter not evaluated: a triangle has 2*area < 1e-10 (absolute parallel-lines threshold; C07-4 pending)")
     return False
+
+
+def premutated_mesh(ctx, Vold, V, rnd, fnames, where, F=None, C=None, idx_form="list"):
+    """(same object, mutated in place) build the mesh on the coordinates Vold, measure it with NON-persistent calls only (nothing
+    is registered on it, so nothing may legitimately be remembered), then overwrite every vertex in place with V"""
+    import mouette as M
+    mesh = build_mesh(Vold, F=F, C=C, idx_form=idx_form)
+    for fname in fnames:
+        ctx.call(fname + ":before-mutation", getattr(M.attributes, fname), mesh, persistent=False, dense=rnd.randrange(2) == 0)
+    same_buffer = rnd.randrange(2) == 0
+    for i in range(len(V)):
+        if same_buffer:
+            mesh.vertices[i][:] = V[i]             # the very same coordinate buffers, overwritten
+        else:
+            mesh.vertices[i] = M.Vec(np.array(V[i], dtype=float))
+    ctx.label("mutated-in-place")
+    return mesh
+
+
+def copy_round_trip(ctx, mesh, specs, ref, sizes, L, rnd, where):
+    """copy.deepcopy / pickle round trip of a mesh that carries cached attributes: the copy must measure the same"""
+    import mouette as M
+    how = ("deepcopy", "pickle")[rnd.randrange(2)]
+    ok, m2 = ctx.call("copy:" + how, (copy.deepcopy if how == "deepcopy" else (lambda m: pickle.loads(pickle.dumps(m)))), mesh)
+    if not ok:
+        return
+    ctx.label("copy=" + how)
+    for spec in specs:
+        q, fname, cname, dim, extra, dname, _ = spec
+        if q not in ref:
+            continue
+        kw = {} if rnd.randrange(2) == 0 else {"persistent": False}
+        ok, attr = ctx.call("copy:" + fname, getattr(M.attributes, fname), m2, **dict(extra, **kw))
+        if ok:
+            vals = read_attr(ctx, "copy:" + fname, attr, sizes[CONT_OF[cname]], dim, f"{where}: {fname} on a {how} copy of the mesh")
+            if vals is not None:
+                compare(ctx, "copy:" + fname, vals, ref[q], KINDS[q][1], L, f"{where}: {fname}(copy, {kw}) on a {how} copy of the measured mesh")
 
 
 class Mag(float):
@@ -398,11 +435,18 @@ def mean_calls(ctx, mesh, fname, qname, per_elem_ref, kind, L, rnd, where, full,
     return res
 
 
-def evaluate_surface(ctx, V, F, rnd, where, full, int_form=None, idx_form="list", float32=False):
+def evaluate_surface(ctx, V, F, rnd, where, full, int_form=None, idx_form="list", float32=False, premutate=None):
     """build a fresh SurfaceMesh from (V, F), run everything, compare with the reference. Returns (values, mesh edges) or None"""
     import mouette as M
     A = M.attributes
-    mesh = build_mesh(V, F=F, int_form=int_form, idx_form=idx_form, float32=float32)
+    if premutate is not None:
+        names = ["face_area", "corner_angles", "edge_length", "face_normals", "face_barycenter", "edge_middle_point"]
+        if all(len(f) == 3 for f in F):
+            names += ["cotangent", "cotan_weights", "angle_defects", "face_circumcenter"]
+        rnd.shuffle(names)
+        mesh = premutated_mesh(ctx, premutate, V, rnd, names[:4], where, F=F, idx_form=idx_form)
+    else:
+        mesh = build_mesh(V, F=F, int_form=int_form, idx_form=idx_form, float32=float32)
     medges = [tuple(ints(e)) for e in mesh.edges]
     if not ctx.check(len(set(medges)) == len(medges) and set(medges) == R.edges_of_faces(F), "edges",
                      f"{where}: mesh.edges is not the set of face sides (low index first)"):
@@ -423,6 +467,9 @@ def evaluate_surface(ctx, V, F, rnd, where, full, int_form=None, idx_form="list"
         n, qual = R.vertex_normals(V, F, mode)
         if not np.all(qual >= 0.05):
             # the weighted normals around some vertex (nearly) cancel: no well-defined direction, the function is not called
+            if len(set(v for f in F for v in f)) < nV:
+                ctx.discard("vertex_normals not evaluated: the mesh has isolated vertices (no incident face to average)")
+                continue
             ctx.discard(f"vertex_normals[{mode}] not evaluated: normal sum (nearly) cancels at a vertex of the {where.split(' ')[0]} mesh")
             continue
         ref["vn_" + mode] = n
@@ -513,6 +560,9 @@ def evaluate_surface(ctx, V, F, rnd, where, full, int_form=None, idx_form="list"
     out["_masks"] = masks
     out["_L"] = L
     mesh_unchanged(ctx, mesh, V, where, F=F)
+    if full and rnd.randrange(2) == 0:
+        copy_round_trip(ctx, mesh, [sp for sp in SURF_FUNCS if sp[0] in ("area", "length", "angles", "degree", "cotw", "defect", "fnormal")],
+                        ref, sizes, L, rnd, where)
     return out, medges, ref
 
 
@@ -601,7 +651,7 @@ def motion(draw):
     else:
         tr = [draw(st.floats(-20, 20, allow_nan=False, width=64)) for _ in range(3)]
     # a third moderate, a third tiny (1e-6 .. 1e-3), a third huge (1e3 .. 1e6); log-uniform or round powers of ten
-    s = draw(st.one_of(st.sampled_from([0.5, 2.0, 0.25, 4.0, 1.0 / 32, 32.0, 3.0, 0.1, 10.0]),
+    s = draw(st.one_of(st.sampled_from([0.5, 2.0, 0.25, 4.0, 1.0 / 32, 32.0, 3.0, 0.1, 10.0, 1.000008, 0.999997]),
                        st.floats(1.0 / 32, 32.0, allow_nan=False),
                        st.sampled_from([1e-3, 1e-4, 1e-5, 1e-6]),
                        st.integers(-60, -30).map(lambda k: 10.0 ** (k / 10.0)),
@@ -630,13 +680,43 @@ def snap_to_lattice(draw, V, ok):
     return V, False
 
 
+def add_isolated(draw, V, F, tags):
+    """one case in six: 1-3 vertices that belong to no face, inserted as the first id, a middle id and / or the last id"""
+    if draw(st.integers(0, 5)) != 0:
+        return V, F
+    where = draw(st.lists(st.sampled_from(["first", "middle", "last"]), min_size=1, max_size=3, unique=True))
+    A = np.array(V, dtype=float)
+    lo, hi = A.min(axis=0), A.max(axis=0)
+    V = [list(v) for v in V]
+    F = [list(f) for f in F]
+    for k, w in enumerate(sorted(where)):
+        pos = 0 if w == "first" else len(V) if w == "last" else len(V) // 2
+        pt = [float(lo[j] + (hi[j] - lo[j] + 1.0) * draw(st.sampled_from([-0.5, 0.25, 0.5, 1.5]))) for j in range(3)]
+        V.insert(pos, pt)
+        F = [[v + 1 if v >= pos else v for v in f] for f in F]
+    tags.append("isolated-vertices=" + "+".join(sorted(where)))
+    return V, F
+
+
 @st.composite
 def tri_case(draw, max_faces=44):
-    s = draw(G.well_shaped_trisurf(max_faces=max_faces))
+    if max_faces >= 40 and draw(st.integers(0, 39)) == 0:
+        # element counts around 256 (uint8 ids, one-byte counters): a long triangle strip with 253..257 faces = 255..259 vertices
+        nf = draw(st.sampled_from([253, 254, 255, 256, 257]))
+        Vs, Fs = G.strip(nf)
+        s = {"V": [[float(x) for x in v] for v in Vs], "F": Fs, "tags": ["base=strip", f"faces={nf}", "around-256-elements"] + G.tags_of(Vs, Fs)}
+        rows = draw(st.sampled_from(["uint8", "uint8", "int16", "list"]))
+    else:
+        s = draw(G.well_shaped_trisurf(max_faces=max_faces))
+        rows = None
     s["V"], snapped = snap_to_lattice(draw, s["V"], lambda Vi: poly_ok(Vi, s["F"]))
     if snapped:
         s["tags"] = s["tags"] + ["lattice"]
+    if rows is None:
+        s["V"], s["F"] = add_isolated(draw, s["V"], s["F"], s["tags"])
     c = {"V": s["V"], "F": s["F"], "tags": s["tags"], "seed": draw(st.integers(0, 10 ** 6))}
+    if rows:
+        c["rows"] = rows
     c.update(draw(motion()))
     c.update(surface_relabelling(draw, c["V"], c["F"]))
     return c
@@ -737,7 +817,9 @@ def poly_case(draw, max_faces=36):
     if snapped:
         tags.append("lattice")
     assert poly_ok(V, F), "poly generator produced an invalid case"
-    c = {"V": V, "F": F, "tags": tags + G.tags_of(V, F), "seed": draw(st.integers(0, 10 ** 6))}
+    tags = tags + G.tags_of(V, F)
+    V, F = add_isolated(draw, V, F, tags)
+    c = {"V": V, "F": F, "tags": tags, "seed": draw(st.integers(0, 10 ** 6))}
     c.update(draw(motion()))
     c.update(surface_relabelling(draw, V, F))
     return c
@@ -759,6 +841,8 @@ def tet_case(draw, max_cells=30):
 @st.composite
 def interp_case(draw):
     s = draw(st.one_of(tri_case(max_faces=30), poly_case(max_faces=24)))
+    s["V"], s["F"] = G.compact(s["V"], s["F"])          # averages onto a vertex without faces are undefined (0/0)
+    s["tags"] = [t for t in s["tags"] if not t.startswith("isolated")]
     c = {"V": s["V"], "F": s["F"], "tags": s["tags"], "seed": draw(st.integers(0, 10 ** 6)),
          "scale": s["scale"] if draw(st.booleans()) else 1.0,
          "const": draw(st.floats(-50, 50, allow_nan=False).filter(lambda x: abs(x) > 1e-3)),
@@ -777,7 +861,7 @@ def check_generated_surface(case):
         raise AssertionError("invalid generated surface: " + err)
     if not poly_ok(V, F, strict=False):
         raise AssertionError("generated surface is not well shaped (planar strictly convex faces, angle bounds)")
-    if len(set(v for f in F for v in f)) != len(V):
+    if len(set(v for f in F for v in f)) != len(V) and not any(str(t).startswith("isolated") for t in case.get("tags", [])):
         raise AssertionError("generated surface has an isolated vertex")
     return V, F
 
@@ -798,6 +882,8 @@ def common_labels(case, ctx, V, s, tr):
     iform = int_form_of(V, case["seed"])
     ctx.label("coords=" + (iform or "float"))
     xform = idx_form_of(case["seed"], len(V))
+    if case.get("rows") and not (case["rows"] == "uint8" and len(V) > 256):
+        xform = case["rows"]
     ctx.label("rows=" + xform)
     return iform, xform
 
@@ -832,7 +918,11 @@ def fn_surface(case, ctx):
 
     # rigid motion
     V1 = V @ Rm.T + tr
-    r1 = evaluate_surface(ctx, V1, F, rnd, "rigidly moved mesh" + f" (rows: {xform}, translation {tr.tolist()})", False, None, xform)
+    gc.collect()
+    pre = V if case["seed"] % 2 == 1 else None      # every other case: the moved mesh is the base-coordinate mesh object mutated in place
+    r1 = evaluate_surface(ctx, V1, F, rnd, "rigidly moved mesh" + (" [built on the base coordinates, measured, then moved in place]" if pre is not None else "")
+                          + f" (rows: {xform}, translation {tr.tolist()})", False, None, xform, False, pre)
+    gc.collect()
     if r1 is not None:
         metamorphic(ctx, out0, r1[0], Variant("rigid", Rm, tr), coord_scale(V1), "rigid motion")
     # scaling
@@ -889,10 +979,15 @@ def perms4():
     return PERMS4
 
 
-def evaluate_tets(ctx, V, C, rnd, where, full, int_form=None, idx_form="list", float32=False):
+def evaluate_tets(ctx, V, C, rnd, where, full, int_form=None, idx_form="list", float32=False, premutate=None):
     import mouette as M
     A = M.attributes
-    mesh = build_mesh(V, C=C, int_form=int_form, idx_form=idx_form, float32=float32)
+    if premutate is not None:
+        names = ["cell_volume", "face_area", "edge_length", "cell_barycenter", "face_barycenter", "face_circumcenter"]
+        rnd.shuffle(names)
+        mesh = premutated_mesh(ctx, premutate, V, rnd, names[:3], where, C=C, idx_form=idx_form)
+    else:
+        mesh = build_mesh(V, C=C, int_form=int_form, idx_form=idx_form, float32=float32)
     medges = [tuple(ints(e)) for e in mesh.edges]
     if not ctx.check(len(set(medges)) == len(medges) and set(medges) == R.edges_of_cells(C), "edges",
                      f"{where}: mesh.edges is not the set of cell edges (low index first)"):
@@ -947,6 +1042,8 @@ def evaluate_tets(ctx, V, C, rnd, where, full, int_form=None, idx_form="list", f
         ctx.check(abs(float(out["mean_vol"]) * len(C) - float(np.sum(out["volume"]))) <= tol_of("vol", out["volume"], L) * len(C),
                   "identity:mean-volume", f"{where}: mean_cell_volume * #cells != sum of cell_volume")
     mesh_unchanged(ctx, mesh, V, where, C=C)
+    if full and rnd.randrange(2) == 0:
+        copy_round_trip(ctx, mesh, [sp for sp in TET_FUNCS if sp[0] in ("area", "length", "volume", "degree")], ref, sizes, L, rnd, where)
     return out, medges, mfaces
 
 
@@ -968,7 +1065,11 @@ def fn_tets(case, ctx):
         return
     out0, medges0, mfaces0 = r0
     V1 = V @ Rm.T + tr
-    r1 = evaluate_tets(ctx, V1, C, rnd, f"rigidly moved mesh (rows: {xform}, translation {tr.tolist()})", False, None, xform)
+    gc.collect()
+    pre = V if case["seed"] % 2 == 1 else None
+    r1 = evaluate_tets(ctx, V1, C, rnd, "rigidly moved mesh" + (" [built on the base coordinates, measured, then moved in place]" if pre is not None else "")
+                       + f" (rows: {xform}, translation {tr.tolist()})", False, None, xform, False, pre)
+    gc.collect()
     if r1 is not None:
         metamorphic(ctx, out0, r1[0], Variant("rigid", Rm, tr), coord_scale(V1), "rigid motion")
     V2 = s * V
@@ -1050,27 +1151,47 @@ def fn_interp(case, ctx):
     for (fname, src, dst, weights, reff, mult) in jobs:
         f = getattr(A, fname)
         (csrc, nsrc), (cdst, ndst) = cont[src], cont[dst]
-        for what in ("const", "random"):
+        for what in ("const", "random", "sparse-default"):
             for dim in (1, 3):
+                if what == "sparse-default" and dim == 3:
+                    continue
                 uid += 1
-                din = rnd.randrange(2) == 0
+                din = rnd.randrange(2) == 0 and what != "sparse-default"
                 by_default = (what == "const" and dim == 1 and not din and rnd.randrange(2) == 0)
                 # values handed over as numpy float32 scalars (a narrow dtype the attribute accepts as 'float')
-                f32 = (what == "const" and dim == 1 and not by_default and rnd.randrange(3) == 0)
+                vform = rnd.randrange(4) if (what == "const" and dim == 1 and not by_default) else 0
+                f32 = vform == 1          # values handed over as numpy.float32
+                as_int = vform == 2       # an integer-valued constant handed over as python int (castable into a float attribute)
+                written = None
                 if what == "const":
                     cv = float(case["const"]) if dim == 1 else np.array(case["cvec"], dtype=float)
                     if f32:
                         cv = float(np.float32(cv))
+                    if as_int:
+                        cv = float(round(cv)) or 3.0
                     x = np.array([cv] * nsrc, dtype=float)
+                elif what == "sparse-default":
+                    # a sparse attribute with a NON-ZERO default: most entries never written, a few written in decreasing index order,
+                    # some of them with the falsy value 0.0; reading it gives x
+                    dflt = float(case["const"])
+                    x = np.full(nsrc, dflt)
+                    written = sorted(set(int(k) for k in nrnd.randint(0, nsrc, size=max(1, nsrc // 3))), reverse=True)
+                    for j, k in enumerate(written):
+                        x[k] = 0.0 if j % 2 == 0 else float(nrnd.uniform(-1, 1))
                 else:
                     x = nrnd.uniform(-1, 1, (nsrc,) if dim == 1 else (nsrc, 3))
                 # ONE input attribute object serves every weight mode of the function (argument reuse)
                 if by_default:
                     ain = csrc.create_attribute(f"c07_in_{uid}", float, dim, dense=False, default_value=float(cv))
+                elif written is not None:
+                    ain = csrc.create_attribute(f"c07_in_{uid}", float, 1, dense=False, default_value=dflt)
+                    for k in written:
+                        ain[k] = float(x[k])
+                    ctx.label("input=sparse,non-zero-default,few-written")
                 else:
                     ain = csrc.create_attribute(f"c07_in_{uid}", float, dim, dense=din)
                     for i in range(nsrc):
-                        ain[i] = (np.float32(x[i]) if f32 else float(x[i])) if dim == 1 else x[i]
+                        ain[i] = (np.float32(x[i]) if f32 else int(x[i]) if as_int else float(x[i])) if dim == 1 else x[i]
                 ws = list(weights)
                 rnd.shuffle(ws)
                 if ws[0] is not None and rnd.randrange(2) == 0:
@@ -1093,7 +1214,7 @@ def fn_interp(case, ctx):
                     aout = cdst.create_attribute(f"c07_out_{uid}_{w}", float, dim, dense=dout)
                     desc = (f"{fname}(mesh, <{what} {'scalar' if dim == 1 else 'vector'} attribute, {'dense' if din else 'sparse'}"
                             f"{' via default value' if by_default else ''}>, <fresh {'dense' if dout else 'sparse'} output>"
-                            + (f", weight={w!r})" if w else ")") + (" [values given as numpy.float32]" if f32 else "")
+                            + (f", weight={w!r})" if w else ")") + (" [values given as numpy.float32]" if f32 else " [values given as python int]" if as_int else "")
                             + f" [weights so far on this input: {ws[:ws.index(w0)]}]")
                     sig = fname + (":" + w0 if w0 else "")
                     ok, r = (ctx.call(sig, f, mesh, ain, aout, w) if w else ctx.call(sig, f, mesh, ain, aout))
@@ -1133,18 +1254,72 @@ def fn_interp(case, ctx):
 
 # --------------------------------------------------------------------------------------------- non-convex planar faces
 
+def fan_signed_min(P, c):
+    """min over the sides (P_i, P_i+1) of the signed area of triangle (P_i, P_i+1, c) measured against the polygon's own normal,
+    divided by the polygon's area: >= 0 iff the point c sees every side from the inside (c in the kernel)"""
+    P = np.asarray(P, dtype=float)
+    va = R.vector_area(P)
+    A = float(np.linalg.norm(va))
+    nrm = va / A
+    n = len(P)
+    return min(0.5 * float(np.dot(np.cross(P[i] - c, P[(i + 1) % n] - c), nrm)) for i in range(n)) / A
+
+
+def library_area_expected_exact(P):
+    """What the (recorded, finding F-C07-3) algorithms of face_area can do: quads = mean of both triangulations (exact on convex
+    quads only); >= 5 sides = unsigned triangle fan about the mean of the vertices (exact iff that point lies in the kernel).
+    Returns True / False, or None when too close to call."""
+    P = np.asarray(P, dtype=float)
+    if len(P) == 4:
+        rows = R.signed_corner_angles_deg(P, [list(range(4))])[0]
+        return all(a > 0 for a in rows)
+    m = fan_signed_min(P, P.mean(axis=0))
+    return True if m > 1e-6 else False if m < -1e-6 else None
+
+
+def library_normal_expected_exact(P):
+    """face_normals = normalised cross product at the first three vertices: right iff the corner at the second vertex is convex"""
+    a = R.signed_corner_angles_deg(P, [list(range(len(P)))])[0][1]
+    return True if a > 1e-3 else False if a < -1e-3 else None
+
+
 @st.composite
 def nonconvex_case(draw):
-    """one simple planar polygon, star-shaped about the origin, with at least one reflex corner (every corner at least 15 degrees
-    away from 0 / 180 / 360), optionally with a triangle glued out of plane on side (0,1); then rigidly moved"""
-    n = draw(st.integers(4, 8))
-    ang = [2 * math.pi * (i + draw(st.floats(-0.2, 0.2, allow_nan=False))) / n for i in range(n)]
-    small = draw(st.lists(st.booleans(), min_size=n, max_size=n))
-    rad = [draw(st.floats(0.25, 0.5, allow_nan=False)) if small[i] else draw(st.floats(0.9, 1.3, allow_nan=False)) for i in range(n)]
-    P = [[rad[i] * math.cos(ang[i]), rad[i] * math.sin(ang[i]), 0.0] for i in range(n)]
-    rows = R.signed_corner_angles_deg(P, [list(range(n))])[0]
-    good = all((15 <= a <= 165) or (-165 <= a <= -15) for a in rows) and any(a < 0 for a in rows)
-    if not good:
+    """one simple planar polygon with 4..10 vertices, star-shaped about the origin, with at least one reflex corner (every corner at
+    least 15 degrees away from 0 / 180 / 360): random radii, or a regular star (alternating radii) listed from a drawn start vertex;
+    notches optionally filled with triangles (planar mesh) or one triangle glued out of plane on side (0,1); then rigidly moved"""
+    kind = draw(st.sampled_from(["random", "star", "star", "dart"]))
+    P = None
+    if kind == "random":
+        n = draw(st.integers(4, 10))
+        ang = [2 * math.pi * (i + draw(st.floats(-0.2, 0.2, allow_nan=False))) / n for i in range(n)]
+        small = draw(st.lists(st.booleans(), min_size=n, max_size=n))
+        rad = [draw(st.floats(0.25, 0.5, allow_nan=False)) if small[i] else draw(st.floats(0.9, 1.3, allow_nan=False)) for i in range(n)]
+        P = [[rad[i] * math.cos(ang[i]), rad[i] * math.sin(ang[i]), 0.0] for i in range(n)]
+    elif kind == "star":
+        k = draw(st.integers(3, 5))                 # number of tips
+        n = 2 * k
+        Ro = draw(st.sampled_from([1.0, 2.0, 1.5])); ri = Ro * draw(st.sampled_from([0.4, 0.3, 0.5, 0.45]))
+        start = draw(st.integers(0, n - 1))          # the first listed vertex: a tip (even) or a notch (odd)
+        jit = draw(st.sampled_from([0.0, 0.02]))
+        P = []
+        for j in range(n):
+            i = (j + start) % n
+            r = (Ro if i % 2 == 0 else ri) * (1 + jit * math.sin(7.0 * i + 1.0))
+            a = math.pi / 2 + i * math.pi / k
+            P.append([r * math.cos(a), r * math.sin(a), 0.0])
+    if P is not None:
+        n = len(P)
+        rows = R.signed_corner_angles_deg(P, [list(range(n))])[0]
+        if not (all((15 <= a <= 165) or (-165 <= a <= -15) for a in rows) and any(a < 0 for a in rows)):
+            P = None
+    if P is None and kind == "random":
+        # fall back to a plain regular five-pointed star listed from a drawn vertex
+        st0 = draw(st.integers(0, 9))
+        P = [[(2.0 if ((j + st0) % 10) % 2 == 0 else 0.8) * math.cos(math.pi / 2 + ((j + st0) % 10) * math.pi / 5),
+              (2.0 if ((j + st0) % 10) % 2 == 0 else 0.8) * math.sin(math.pi / 2 + ((j + st0) % 10) * math.pi / 5), 0.0] for j in range(10)]
+        n = 10
+    if P is None:
         # the classic dart / arrow head, reflex corner at a drawn position
         n = 4
         k = draw(st.integers(0, 3))
@@ -1152,7 +1327,19 @@ def nonconvex_case(draw):
         P = [base[(i - k + 2) % 4] for i in range(4)]
     V = [list(p) for p in P]
     F = [list(range(n))]
-    if draw(st.booleans()):
+    extra = draw(st.sampled_from(["none", "neighbour", "fill", "fill"]))
+    if extra == "fill":
+        # a triangle in every notch whose two neighbours are convex corners: (next, reflex, previous) runs against the polygon
+        rows = R.signed_corner_angles_deg(V, [F[0]])[0]
+        Ff = list(F)
+        for i in range(n):
+            if rows[i] < 0 and rows[i - 1] > 0 and rows[(i + 1) % n] > 0:
+                Ff.append([(i + 1) % n, i, (i - 1) % n])
+        if len(Ff) > 1 and SurfRef(len(V), Ff).validate() is None:
+            F = Ff
+        else:
+            extra = "neighbour"
+    if extra == "neighbour":
         m = (np.array(V[0]) + np.array(V[1])) / 2
         V.append([float(m[0]), float(m[1]), 0.7])
         # side (0,1) of the polygon is traversed 0 -> 1, the triangle must traverse it 1 -> 0
@@ -1174,19 +1361,25 @@ def fn_nonconvex(case, ctx):
     if not (any(a < 0 for a in rows) and all(15 - 1e-6 <= abs(a) <= 165 + 1e-6 for a in rows)) or R.planarity_defect(V0, [F0[0]]) > 1e-12:
         raise AssertionError("generated polygon is not a well-shaped non-convex planar polygon")
     Rm, tr, s, ident = motion_of(case)
+    P0 = V0[F0[0]]
+    exact = library_area_expected_exact(P0)
+    first_in_kernel = fan_signed_min(P0, P0[0]) >= -1e-9
     ctx.label(f"n={n}", f"reflex={sum(1 for a in rows if a < 0)}", "reflex-at-second-vertex" if rows[1] < 0 else "second-vertex-convex",
-              "with-neighbour" if len(F0) > 1 else "alone")
+              "alone" if len(F0) == 1 else "with-neighbour" if len(V0) > n else "notches-filled",
+              "vertex-mean-in-kernel(area exact expected)" if exact else "vertex-mean-outside-kernel-or-quad(F-C07-3)",
+              "first-vertex-in-kernel" if first_in_kernel else "first-vertex-outside-kernel")
     ctx.nontrivial(not ident)
     r = case["rot"] % n
     variants = [("as generated", V0, F0),
                 (f"face vertex list rotated by {r}", V0, [F0[0][r:] + F0[0][:r]] + F0[1:]),
                 ("rigidly moved", V0 @ Rm.T + tr, F0)]
+    xform = idx_form_of(case["seed"], len(V0))
     for where, V, F in variants:
-        mesh = surface_from(V.tolist(), F)
+        mesh = build_mesh(V, F=F, idx_form=xform)
         if [ints(f) for f in mesh.faces] != F:
             ctx.fail("faces", "mesh.faces differs from the input face list")
             return
-        L = coord_scale(V)
+        L = coord_scale(V, [tuple(ints(e)) for e in mesh.edges])
         for q, fname, dim, kind, ref in (("area", "face_area", 1, "area", R.face_areas(V, F)),
                                          ("fnormal", "face_normals", 3, "dir", R.face_normals(V, F)),
                                          ("fbary", "face_barycenter", 3, "point", R.face_barycenters(V, F))):
@@ -1199,9 +1392,13 @@ def fn_nonconvex(case, ctx):
                 compare(ctx, "nonconvex:" + fname, vals, ref, kind, L,
                         f"{where}: {fname} of a planar non-convex {n}-gon with signed corner angles {np.round(rows, 1).tolist()} "
                         f"(face 0 = {F[0]}; expected = |vector area| / unit vector area / vertex mean)")
+        fa = R.face_areas(V, F)
         ok, ta = ctx.call("total_area", A.total_area, mesh)
         if ok:
-            compare(ctx, "nonconvex:total_area", [float(ta)], [float(np.sum(R.face_areas(V, F)))], "area", L, f"{where}: total_area")
+            compare(ctx, "nonconvex:total_area", [float(ta)], [float(np.sum(fa))], "area", L, f"{where}: total_area")
+        ok, ma = ctx.call("mean_face_area", A.mean_face_area, mesh)
+        if ok:
+            compare(ctx, "nonconvex:mean_face_area", [float(ma)], [float(np.mean(fa))], "area", L, f"{where}: mean_face_area")
         # corner angles: asserted at the convex corners only (at a reflex corner the library returns the unsigned angle between the
         # two sides, which the docstring 'angles of a face at a vertex' does not exclude)
         ok, attr = ctx.call("corner_angles", A.corner_angles, mesh, persistent=False)
@@ -1233,15 +1430,23 @@ SUBCHECKS = [
 ]
 
 def kf_nonconvex_faces(case, violation):
-    """face_area (quads: mean of the two triangulations, n>4: unsigned fan about the vertex mean) and face_normals (first three
-    vertices) are only right on convex faces. Narrow: only the dedicated sub-check, only these signatures, only a case whose
-    first face really has a reflex corner."""
+    """F-C07-3: face_area (quads: mean of the two triangulations; >= 5 sides: unsigned fan about the mean of the vertices) and
+    face_normals (first three vertices) are not right on every non-convex face. Narrow: only the dedicated sub-check, only these
+    signatures, and only where those very algorithms cannot be exact: a non-convex quad or a polygon whose vertex mean lies outside
+    its kernel (areas); the corner at the second listed vertex - of the face list of the failing variant - is reflex (normals)."""
     if violation.sub_check != "nonconvex_face":
         return False
-    if violation.signature not in ("nonconvex:face_area", "nonconvex:face_normals", "nonconvex:total_area"):
-        return False
-    rows = R.signed_corner_angles_deg(np.array(case["V"], dtype=float), [case["F"][0]])[0]
-    return any(a < 0 for a in rows)
+    V = np.array(case["V"], dtype=float)
+    f = [int(v) for v in case["F"][0]]
+    if violation.message.startswith("face vertex list rotated by"):
+        r = int(case["rot"]) % len(f)
+        f = f[r:] + f[:r]
+    P = V[f]
+    if violation.signature in ("nonconvex:face_area", "nonconvex:total_area", "nonconvex:mean_face_area"):
+        return library_area_expected_exact(P) is not True
+    if violation.signature == "nonconvex:face_normals":
+        return library_normal_expected_exact(P) is not True
+    return False
 
 
 def _min_double_area(case):
